@@ -221,6 +221,33 @@ fn static_checks(col: &mut Collector, n_bases: usize) -> Vec<Failure> {
         }
         col.class("field-declarations-agree");
     }
+    // multi-scalar sums of many terms (window widths change with the length) with scalars from the
+    // whole range incl. −1, −2 and values just below r
+    {
+        use ark_ec::VariableBaseMSM;
+        for n in [3usize, 40, 700, 5000, 8193, 12_000, 16_384, if n_bases > 64 { 40_000 } else { 2100 }] {
+            let pts: Vec<ZorroG> = (0..n).map(|i| g.mul_bigint([2 + i as u64]).into_affine()).collect();
+            let scs: Vec<Fr> = (0..n)
+                .map(|i| match i % 7 {
+                    0 => -Fr::one(),
+                    1 => -Fr::from(2 + i as u64),
+                    2 => Fr::one(),
+                    3 => ScalarSpec::Rand(i as u64).to_f(),
+                    4 => Fr::from(i as u64),
+                    5 => Fr::zero(),
+                    _ => -ScalarSpec::Rand(900 + i as u64).to_f::<Fr>(),
+                })
+                .collect();
+            let got = <ark_bulletproofs::curve::zorro::G1Projective as VariableBaseMSM>::msm(&pts, &scs).map(|x| x.into_affine());
+            // Σ sᵢ·(2+i)·G = (Σ sᵢ·(2+i))·G
+            let total: Fr = scs.iter().enumerate().map(|(i, s)| *s * Fr::from(2 + i as u64)).sum();
+            col.eval();
+            if got.ok() != Some(g.mul_bigint(total.into_bigint()).into_affine()) {
+                fail("msm", format!("a multi-scalar multiplication of {} terms differs from the multiple it must equal", n));
+            }
+        }
+        col.class("msm:many-terms");
+    }
     col.class("order-argument");
     out
 }
@@ -322,7 +349,9 @@ fn case(bytes: &[u8], col: &mut Collector) -> Result<(), Failure> {
                 let seed = ch.u16() as u64;
                 let nl = if ch.chance(128) { 4 } else { 5 };
                 let mut limbs: Vec<u64> = (0..nl).map(|i| (seed + 1 + i as u64).wrapping_mul(0x9e37_79b9_7f4a_7c15).rotate_left(11 * (i as u32 + 1))).collect();
-                match ch.below(4) {
+                match ch.below(6) {
+                    4 => limbs = { let mut v = vec![u64::MAX; nl]; v[0] -= ch.below(40) as u64; v }, // 2^(64·nl) − 1 − small
+                    5 => limbs = { let mut v = vec![0u64; nl]; v[nl - 1] = 1 << ch.below(64); v[0] = ch.below(40) as u64; v }, // 2^k + small
                     0 => limbs = { let mut v = (&r + BigUint::from(1 + ch.byte() as u32)).to_u64_digits(); v.resize(nl.max(v.len()), 0); v }, // r + small
                     1 => limbs = { let mut v = vec![0u64; nl]; v[3] = 1 << 63; v[0] = ch.byte() as u64; v }, // 2^255 + small
                     2 => *limbs.last_mut().unwrap() |= 1 << 63,
